@@ -216,7 +216,49 @@ class Gen:
         evs += ["worker"] * 10 + ["call 0 get %d" % k for k in keys] + ["call 0 stats", "call 0 weight_used"]
         return dict(name=name, cfg=cfg, events=evs, profile="upsertpipe")
 
+    def schedule_expired(self, name):
+        """keys put with a short time-to-live, the clock moved past their expiry WITHOUT a sweep, then a burst of operations on
+        those expired-but-still-stored keys while the worker lags (delete, every shape of put_or_update, put, all reads),
+        reads after every step; then the worker catches up, sweeps run, everything is read again"""
+        r = self.rng
+        cfg = self.cfg("roomy")
+        cfg["queue"] = 8
+        cfg["shards"] = r.choice([2, 4])
+        evs = []
+        keys = [1, 2, 3][: r.randint(1, 3)]
+        for k in keys:
+            evs += ["call 0 put_w_ttl %d %d %d %d" % (k, self.tok(), r.choice([5, 10, 30]), r.choice([1, 2, 3]) * SEC), "worker"]
+        evs.append("advance %d" % (r.choice([4, 5, 10]) * SEC))
+        reads = ["get", "get_ref", "map_get", "map_get_ref"]
+        for _ in range(r.randint(2, 7)):
+            k = r.choice(keys)
+            tid = r.randint(0, 2)
+            kind = r.random()
+            if kind < 0.3:
+                evs.append("call %d delete %d" % (tid, k))
+            elif kind < 0.5:
+                evs.append("call %d upsert %d - - %d 0" % (tid, k, r.choice([2, 5, 60]) * SEC))
+            elif kind < 0.6:
+                evs.append("call %d upsert %d - - - 1" % (tid, k))
+            elif kind < 0.75:
+                evs.append("call %d upsert %d %d - - 0" % (tid, k, self.tok()))
+            elif kind < 0.85:
+                evs.append("call %d upsert %d %d %d %d 0" % (tid, k, self.tok(), r.choice([5, 10]), r.choice([2, 60]) * SEC))
+            else:
+                evs.append("call %d put_w %d %d 5" % (tid, k, self.tok()))
+            evs.append("call %d %s %d" % (r.randint(0, 2), r.choice(reads), k))
+            if r.random() < 0.25:
+                evs.append("worker")
+        evs += ["worker"] * 8
+        evs += ["call 0 get %d" % k for k in keys]
+        for _ in range(2 * cfg["shards"] + 1):
+            evs += ["advance %d" % SEC, "sweep"]
+        evs += ["call 0 get %d" % k for k in keys] + ["call 0 stats", "call 0 weight_used"]
+        return dict(name=name, cfg=cfg, events=evs, profile="expired")
+
     def schedule(self, name, profile="general", length=None):
+        if profile == "expired":
+            return self.schedule_expired(name)
         if profile == "upsertpipe":
             return self.schedule_upsertpipe(name)
         if profile == "evict2":
